@@ -218,14 +218,21 @@ func (fr *Frame) applyContract(spec *FuncSpec, key string, sig *types.Signature,
 	}
 	for i, c := range spec.Requires {
 		ctx := &SpecCtx{e: e, names: names, heap: pre, old: pre, pkg: spec.Pkg}
-		parts := ctx.evalSplit(c.Expr)
-		for j, g := range parts {
+		partsL := ctx.evalSplitL(c.Expr)
+		var parts []string
+		for j, g := range partsL {
+			parts = append(parts, g.Term)
 			if e.dry == 0 {
 				name := fmt.Sprintf("%s#%spre@%s:%d", e.topKey(), fr.callpath, site, i+1)
-				if len(parts) > 1 {
+				src := "precondition of " + short + ": " + c.Src
+				if len(partsL) > 1 {
 					name = fmt.Sprintf("%s/%d", name, j+1)
+					src = "precondition of " + short + " (part): " + g.Desc
 				}
-				e.oblige(name, "pre", st.reach, g, fr.pos(in.Pos()), "precondition of "+short+": "+c.Src, c.Tags)
+				o := e.oblige(name, "pre", st.reach, g.Term, fr.pos(in.Pos()), src, c.Tags)
+				if len(partsL) > 1 {
+					o.Group = fmt.Sprintf("%s#%spre@%s:%d", e.topKey(), fr.callpath, site, i+1)
+				}
 			}
 		}
 		if g := and(parts...); g != "true" {
@@ -287,7 +294,7 @@ func (e *Enc) heapNamesUnder(pkg string, item string) []([2]string) {
 	if strings.HasPrefix(item, "elems(") {
 		t := e.P.parseType(pkg, strings.TrimSuffix(strings.TrimPrefix(item, "elems("), ")"))
 		for _, c := range flatten(t) {
-			out = append(out, [2]string{elemArr(t, nil, c.Suffix), arrSort('E', c.Sort)})
+			out = append(out, [2]string{elemArr(t, nil, c), arrSort('E', c.Sort)})
 		}
 		return out
 	}
@@ -296,7 +303,7 @@ func (e *Enc) heapNamesUnder(pkg string, item string) []([2]string) {
 		mt := t.Underlying().(*types.Map)
 		out = append(out, [2]string{mapDom(mt), arrSort('D', "")}, [2]string{mapLen(mt), arrSort('L', "")})
 		for _, c := range flatten(mt.Elem()) {
-			out = append(out, [2]string{mapVal(mt, c.Suffix), arrSort('V', c.Sort)})
+			out = append(out, [2]string{mapVal(mt, c), arrSort('V', c.Sort)})
 		}
 		return out
 	}
@@ -329,7 +336,7 @@ func (e *Enc) heapNamesUnder(pkg string, item string) []([2]string) {
 		}
 	}
 	for _, c := range flatten(cur) {
-		out = append(out, [2]string{fieldArr(nt, path, c.Suffix), arrSort('F', c.Sort)})
+		out = append(out, [2]string{fieldArr(nt, path, c), arrSort('F', c.Sort)})
 	}
 	return out
 }
@@ -351,6 +358,17 @@ func (e *Enc) resolveModifies(spec *FuncSpec, names map[string]Val, pre *Heap) (
 		}
 		ctx := &SpecCtx{e: e, names: names, heap: pre, old: pre, pkg: spec.Pkg}
 		// designator: <pointer expr>.<field path through embedded structs> ; "x.*" = every field of *x
+		if mi.Obj.Op == "call" && mi.Obj.Name == "elemsof" {
+			sv := ctx.eval(mi.Obj.Args[0])
+			if sv.K != kSlice {
+				panic(specErr("modifies %s: elemsof needs a slice", mi.Src))
+			}
+			et := sv.T.Underlying().(*types.Slice).Elem()
+			for _, c := range flatten(et) {
+				cells = append(cells, cellMod{elemArr(et, nil, c), arrSort('E', c.Sort), sv.Arr})
+			}
+			continue
+		}
 		chain := []string{}
 		node := mi.Obj
 		if mi.Field == "*" {
@@ -361,7 +379,7 @@ func (e *Enc) resolveModifies(spec *FuncSpec, names map[string]Val, pre *Heap) (
 			}
 			for i := 0; i < st.NumFields(); i++ {
 				for _, c := range flatten(st.Field(i).Type()) {
-					cells = append(cells, cellMod{fieldArr(nt, []int{i}, c.Suffix), arrSort('F', c.Sort), ov.S})
+					cells = append(cells, cellMod{fieldArr(nt, []int{i}, c), arrSort('F', c.Sort), ov.S})
 				}
 			}
 			continue
@@ -406,7 +424,7 @@ func (e *Enc) resolveModifies(spec *FuncSpec, names map[string]Val, pre *Heap) (
 					cur = st.Field(fi).Type()
 				}
 				for _, c := range flatten(cur) {
-					cells = append(cells, cellMod{fieldArr(nt, path, c.Suffix), arrSort('F', c.Sort), ov.S})
+					cells = append(cells, cellMod{fieldArr(nt, path, c), arrSort('F', c.Sort), ov.S})
 				}
 				done = true
 			}()
@@ -420,10 +438,17 @@ func (e *Enc) resolveModifies(spec *FuncSpec, names map[string]Val, pre *Heap) (
 
 func (e *Enc) havocModifies(spec *FuncSpec, names map[string]Val, pre, post *Heap, hint string) {
 	whole, cells := e.resolveModifies(spec, names, pre)
+	var wholeNew []string
+	defer func() {
+		for _, n := range wholeNew {
+			e.assumeClosure(n, post.m[n], post.alloc)
+		}
+	}()
 	for _, n := range sortedKeys(whole) {
 		post.m[n] = e.fresh(n, whole[n])
 		e.declare(n+"@0", whole[n])
 		post.mark(n, 0)
+		wholeNew = append(wholeNew, n)
 	}
 	for _, c := range cells {
 		if _, w := whole[c.arr]; w {
@@ -449,6 +474,7 @@ func (e *Enc) havocModifies(spec *FuncSpec, names map[string]Val, pre, post *Hea
 				e.assume("true", fmt.Sprintf("(forall ((r Int)) (! (=> (<= r %s) (= (select %s r) (select %s r))) :pattern ((select %s r))))", pre.alloc, nw, old, nw))
 				post.m[ns[0]] = nw
 				post.mark(ns[0], e.serial)
+				wholeNew = append(wholeNew, ns[0])
 			}
 		}
 	}
@@ -469,7 +495,7 @@ func (fr *Frame) builtin(b *ssa.Builtin, cc *ssa.CallCommon, in ssa.Instruction,
 			return scalar(types.Typ[types.Int], a.Len)
 		case isString(cc.Args[0].Type()):
 			e.strUsed = true
-			return scalar(types.Typ[types.Int], sx("str.len", a.S))
+			return scalar(types.Typ[types.Int], sx("gstr.len", a.S))
 		}
 		if mt, ok := cc.Args[0].Type().Underlying().(*types.Map); ok {
 			l := e.define(fr.vname2(in), "Int", sel(e.harr(h, mapLen(mt), arrSort('L', "")), a.S))
@@ -520,7 +546,7 @@ func (fr *Frame) appendOp(cc *ssa.CallCommon, in ssa.Instruction, st *BState, ar
 	k := fr.staticLen(cc.Args[1])
 	newLen := e.define(fr.vname2(in)+"#len", "Int", sx("+", s.Len, t.Len))
 	for _, c := range flatten(et) {
-		n := elemArr(et, nil, c.Suffix)
+		n := elemArr(et, nil, c)
 		srt := arrSort('E', c.Sort)
 		H := e.harr(h, n, srt)
 		var inner string
